@@ -11,7 +11,10 @@ import (
 	"testing/synctest"
 	"time"
 
+	"crypto/tls"
+
 	"github.com/cybergarage/go-redis/redis"
+	"github.com/cybergarage/go-redis/redis/auth"
 	"verif/sim/resp"
 	"verif/sim/sim"
 	"verif/sim/wl"
@@ -98,6 +101,7 @@ type freeConn struct {
 	id   int
 	end  *sim.FEnd
 	addr string
+	tls  bool // driven by its own TLS client goroutine: no raw writes or drains by the stimulus loop
 }
 
 // runC14 does not use the serial scheduler: each step injects a seed-chosen batch of concurrent stimuli
@@ -140,7 +144,7 @@ func runC14(t *testing.T, tape *sim.Tape, tier string) *Outcome {
 	o.Nontrivial = strings.ContainsAny(o.Sched, "LRX")
 	o.LogHash = fmt.Sprintf("%x", hash64(o.Sched))
 	o.Log = []string{o.Sched}
-	o.Sample = map[string]any{"stimulus_batches": o.Sched, "legend": "D dial, C command, X disconnect, R registry query, L lifecycle call, | quiescence"}
+	o.Sample = map[string]any{"stimulus_batches": o.Sched, "legend": "D dial, T TLS client (handshake + commands), C command, X disconnect, R registry query, L lifecycle call, | quiescence"}
 	return o
 }
 
@@ -157,6 +161,19 @@ func runC14Bubble(t *testing.T, tape *sim.Tape, tier string, o *Outcome, schedp 
 		withPw := tape.Draw(3, "password") == 0
 		if withPw {
 			srv.SetRequirePass("pw")
+		}
+		// a quarter of the runs also serve the TLS port (handshake goroutines, temporary registry entries, certificate check)
+		withTLS := tape.Draw(4, "tls") == 3
+		pki := wl.GetPKI()
+		if withTLS {
+			srv.SetTLSPort(tlsPort)
+			srv.ServerCert = pki.Server.CertPEM
+			srv.ServerKey = pki.Server.KeyPEM
+			srv.CACerts = pki.CA.CertPEM
+			if tape.Draw(2, "cnrule") == 1 {
+				srv.AddAuthenticator(auth.NewCertificateAuthenticatorWith(auth.WithCommonName(pki.RuleName)))
+			}
+			o.stat("runs_with_tls_port", 1)
 		}
 		if err := srv.Start(); err != nil {
 			o.violate("harness:start", "Start failed: %v", err)
@@ -184,6 +201,33 @@ func runC14Bubble(t *testing.T, tape *sim.Tape, tier string, o *Outcome, schedp 
 			for b := 0; b < batch; b++ {
 				kind := tape.Draw(16, "stim")
 				switch {
+				case withTLS && kind < 3 && tape.Draw(2, "tlsdial") == 1: // TLS client: handshake, a few commands, then idle until disconnected
+					ident := []*wl.Ident{pki.Right, pki.Right, pki.WrongName, nil}[tape.Draw(4, "ident")]
+					ncmd := tape.Draw(3, "tlscmds")
+					if e := fn.Dial(addrOf(tlsPort), nextID); e != nil {
+						conns = append(conns, &freeConn{id: nextID, end: e, tls: true})
+						cfg := pki.ClientConfig(ident)
+						go func() {
+							tc := tls.Client(e, cfg)
+							if tc.Handshake() != nil {
+								return
+							}
+							buf := make([]byte, 256)
+							for i := 0; i < ncmd; i++ {
+								if _, err := tc.Write(resp.Cmd("PING")); err != nil {
+									return
+								}
+								if _, err := tc.Read(buf); err != nil {
+									return
+								}
+							}
+						}()
+						o.stat("stim_tls_dial", 1)
+					} else {
+						o.stat("stim_dial_refused", 1)
+					}
+					nextID++
+					sched.WriteString("T")
 				case kind < 3 || len(conns) == 0: // dial
 					if e := fn.Dial(addrOf(plainPort), nextID); e != nil {
 						conns = append(conns, &freeConn{id: nextID, end: e})
@@ -196,6 +240,10 @@ func runC14Bubble(t *testing.T, tape *sim.Tape, tier string, o *Outcome, schedp 
 				case kind < 10: // command on an existing connection
 					c := conns[tape.Draw(len(conns), "conn")]
 					cmd := cmds[tape.Draw(len(cmds), "cmd")]
+					if c.tls {
+						sched.WriteString("-")
+						continue
+					}
 					c.end.Write(resp.Cmd(cmd...))
 					c.end.Drain()
 					o.stat("stim_command", 1)
@@ -273,7 +321,9 @@ func runC14Bubble(t *testing.T, tape *sim.Tape, tier string, o *Outcome, schedp 
 			synctest.Wait()
 			sim.Progress.Add(1)
 			for _, c := range conns {
-				c.end.Drain()
+				if !c.tls {
+					c.end.Drain()
+				}
 			}
 			sched.WriteString("|")
 			o.Steps++
@@ -293,7 +343,7 @@ func init() {
 	register(&Check{
 		ID: "C14", Bubble: false, Run: runC14, NoShrink: false,
 		Runs:   map[string]int{"quick": 6000, "thorough": 150000},
-		Rule:   "a case is one run of 3..12 steps; each step releases a seed-chosen batch of 2..8 (thorough ..32) concurrent stimuli (dials, commands of every family incl. CONFIG SET/GET and AUTH, close/reset/half-close, registry queries incl. Close on a returned connection, at most one Start/Stop/Restart) and then waits for quiescence; the harness and the repo are built with -race and a report counts when both access stacks contain a framework frame; distinct = distinct stimulus-batch sequences; non-trivial = the run contains a lifecycle call, registry query or disconnect",
+		Rule:   "a case is one run of 3..12 steps; each step releases a seed-chosen batch of 2..8 (thorough ..32) concurrent stimuli (dials, in a quarter of the runs also TLS clients with accepted/rejected/missing certificates doing a real handshake against the TLS port, commands of every family incl. CONFIG SET/GET and AUTH, close/reset/half-close, registry queries incl. Close on a returned connection, at most one Start/Stop/Restart) and then waits for quiescence; the harness and the repo are built with -race and a report counts when both access stacks contain a framework frame; distinct = distinct stimulus-batch sequences; non-trivial = the run contains a lifecycle call, registry query or disconnect",
 		Real:   []string{"redis.Server (all of it) under the Go race detector", "reference store (internally locked)"},
 		Stub:   []string{"network: free-running simulated listener/connections with per-object locks only", "scheduler: seed decides stimuli and step boundaries; inside a step the Go runtime runs freely (the verdict is a happens-before property)"},
 		Assume: []string{"verdicts replay, traces do not: the replay criterion is that the same site pair is reported", "two lifecycle calls are never issued concurrently with each other"},
